@@ -275,7 +275,15 @@ func (r *Runner) runReal(st Step, id int64) *RealResult {
 					w.Rec.add(en)
 				}
 			}
-			r.ex = r.ex.OnSuccess(done("OnSuccess")).OnFailure(done("OnFailure")).OnDone(done("OnDone"))
+			if !r.Sc.execMuted("OnSuccess") {
+				r.ex = r.ex.OnSuccess(done("OnSuccess"))
+			}
+			if !r.Sc.execMuted("OnFailure") {
+				r.ex = r.ex.OnFailure(done("OnFailure"))
+			}
+			if !r.Sc.execMuted("OnDone") {
+				r.ex = r.ex.OnDone(done("OnDone"))
+			}
 		}
 	})
 	ex := r.ex.WithContext(ctx)
@@ -417,6 +425,9 @@ func (r *Runner) compareLogs(model, real []Entry, id int64, res *StepResult) {
 		var m2 []Entry
 		for _, e := range model {
 			if e.Pol >= 0 && e.Pol < len(r.Sc.Pool) && r.Sc.Pool[e.Pol].Muted(strings.TrimSuffix(e.Name, "?")) {
+				continue
+			}
+			if e.Pol == PolExecutor && r.Sc.execMuted(e.Name) {
 				continue
 			}
 			m2 = append(m2, e)
